@@ -405,7 +405,7 @@ def fault_mix_cases(hist, douts, post_ops, tier, variants_quick=2, variants_thor
 
 
 def crash_check(prop, tier, seed, family, post_family, oracles, interesting, n_hist_quick, k_quick, n_hist_thorough, rule, assumptions,
-                second_ratio=5, level="fault_enumeration", fault_mix=False):
+                second_ratio=5, level="fault_enumeration", fault_mix=False, handler_family=None):
     acc = Acc(prop, tier, seed, oracles, level)
     n_hist = n_hist_quick if tier == "quick" else n_hist_thorough
     hist = gen(family, seed, 0, n_hist)
@@ -503,6 +503,17 @@ def crash_check(prop, tier, seed, family, post_family, oracles, interesting, n_h
                 fm["errno_%s" % {"5": "EIO", "28": "ENOSPC", "4": "EINTR", "24": "EMFILE"}.get(str(code), code)] += n
             fm["short_writes"] += (o.get("fs") or {}).get("faults_short", 0)
         acc.extra["io_error_fault_mix"] = dict(fm)
+    if handler_family:
+        fam, nq, nt = handler_family
+        hcases = gen(fam, seed, 0, nq if tier == "quick" else nt)
+        t = time.time()
+        houts = execute(hcases, timeout_s=300)
+        log(f"[{prop}] {len(hcases)} handler-level histories in {time.time() - t:.1f}s")
+        q = 0
+        for c, o in zip(hcases, houts):
+            acc.add(c, o, hop_kinds(c).get("restart", 0) >= 1 and hop_kinds(c).get("query", 0) >= 1)
+            q += o.get("queries_checked", 0)
+        acc.extra["handler_level_histories"] = {"family": fam, "runs": len(hcases), "answers_checked_against_fresh_evaluation": q}
     acc.extra["histories"] = len(hist)
     acc.extra["crash_point_candidates_after_collapsing"] = crashpoints_total
     acc.extra["crash_windows_targeted"] = dict(windows.most_common(60))
@@ -545,9 +556,14 @@ def check_c16(tier, seed):
             "optional second crash inside recovery; oracles: store reopens, every KG opens, rule names + clause counts + describe text and schemas = "
             "acknowledged prefix or that prefix plus the in-flight catalog operation (old or new, never a third state, never silently empty), then a rule "
             "registration / restart / drop / restart tail must match the model; non-trivial = crash fired and history has a catalog operation")
+    oracles += ["stateless_query_differs_from_fresh_evaluation", "persistent_rules_differ_from_model", "persistent_facts_differ_from_model"]
+    rule += ("; Handler-level family c16h (faults off): rules from the same shape pool are registered with `+<clause>` through the real Handler (which prints the parsed rule, re-parses "
+             "the text and stores the result), queried, and queried again after clean restarts; oracle: answers = fresh evaluation on a pristine store that registered the ORIGINAL text "
+             "through the engine API")
     return crash_check("C16", tier, seed, "c16", "post_catalog", oracles,
                        ["rule-catalog", "schema-catalog"], 300, 6, 200, rule,
-                       ASSUME_COMMON + ["immediate durability mode", "rule texts come from a fixed pool of 8 safe bodies; describe text equality is checked across restarts"])
+                       ASSUME_COMMON + ["immediate durability mode", "rule texts come from a pool of 27 safe clause shapes; describe texts and probe answers are compared across restarts"],
+                       handler_family=("c16h", 700, 7000))
 
 
 def check_c17(tier, seed):
